@@ -38,6 +38,8 @@ const SRC_POOL: &[&str] = &[
     "stream C = Order .where(amount >= 10)",
 ];
 const BAD_SRC: &str = "stream = = .where(";
+/// parses, but Engine::load / Engine::reload refuse it (a rejected operation that got past the parser)
+const REJ_SRC: &str = "stream A = SensorReading .where(x > 1) .collect()";
 const ADMIN: &str = "admin-key-verif";
 
 struct World {
@@ -110,8 +112,8 @@ async fn scenario(ctx: &mut Ctx, len: u64) {
         } else if r < 58 {
             let ti = *ctx.rng.pick(&live_t);
             let name = *ctx.rng.pick(NAMES_POOL);
-            let bad = ctx.rng.chance(1, 8);
-            let src = if bad { BAD_SRC } else { *ctx.rng.pick(SRC_POOL) };
+            let bad = ctx.rng.chance(1, 6);
+            let src = if bad { if ctx.rng.chance(1, 2) { BAD_SRC } else { REJ_SRC } } else { *ctx.rng.pick(SRC_POOL) };
             let resp = warp::test::request().method("POST").path("/api/v1/pipelines").header("x-api-key", w.tenants[ti].1.as_str())
                 .json(&serde_json::json!({"name": name, "source": src})).reply(&routes).await;
             status = resp.status().as_u16();
@@ -135,8 +137,8 @@ async fn scenario(ctx: &mut Ctx, len: u64) {
             ctx.count(if foreign { "op:delete-pipeline-foreign-key" } else { "op:delete-pipeline" });
         } else if !live_p.is_empty() {
             let (ti, pi) = *ctx.rng.pick(&live_p);
-            let bad = ctx.rng.chance(1, 6);
-            let src = if bad { BAD_SRC } else { *ctx.rng.pick(SRC_POOL) };
+            let bad = ctx.rng.chance(1, 4);
+            let src = if bad { if ctx.rng.chance(1, 3) { BAD_SRC } else { REJ_SRC } } else { *ctx.rng.pick(SRC_POOL) };
             let resp = warp::test::request().method("POST").path(&format!("/api/v1/pipelines/{}/reload", w.pipes[pi])).header("x-api-key", w.tenants[ti].1.as_str())
                 .json(&serde_json::json!({"source": src})).reply(&routes).await;
             status = resp.status().as_u16();
